@@ -39,6 +39,7 @@ func runC15(c *Ctx, r *Report) {
 	c15R12(c, r, "C15.R12")
 	c15R13(c, r, "C15.R13")
 	c15R14(c, r, "C15.R14")
+	c15R15(c, r, "C15.R15")
 }
 
 // docOptions extracts the option keywords at block depth 1 of a "Syntax:" doc block.
@@ -1096,5 +1097,135 @@ func c15R14(c *Ctx, r *Report, rule string) {
 	}
 	if n == 0 {
 		r.bad(rule, "unmarshallers", "token stores", "-", "no token value stored in an argument loop was found (rule has no instance)")
+	}
+}
+
+// c15R15: a configuration list that is filled from two places of one Caddyfile block (same-line arguments and block
+// options, say) keeps the order in which the Caddyfile states its entries: if the tokens of one place are read
+// before those of the other, its entries are appended before as well. (The order of upstreams decides which one
+// `first` and `round_robin` pick; the adapted JSON must state them in the Caddyfile's order.)
+func c15R15(c *Ctx, r *Report, rule string) {
+	r.rule(rule, "textual order: where two append sites of a Caddyfile unmarshaller fill the same configuration list from tokens read at different places, the site whose tokens are read first also appends first", 1)
+	n := 0
+	for _, fn := range sortedFuncs(c15Roots(c)) {
+		if len(fn.Blocks) == 0 || fn.Pkg == nil || !strings.HasPrefix(fn.Pkg.Pkg.Path(), modPath) {
+			continue
+		}
+		type site struct {
+			st    *ssa.Store
+			reads []ssa.Instruction
+		}
+		byField := map[string][]site{}
+		for _, b := range fn.Blocks {
+			for _, in := range b.Instrs {
+				st, ok := in.(*ssa.Store)
+				if !ok {
+					continue
+				}
+				_, sn, f, ok := fieldAddr(st.Addr)
+				if !ok {
+					continue
+				}
+				call, ok := st.Val.(*ssa.Call)
+				if !ok || calleeID(call) != "builtin append" || len(call.Call.Args) != 2 {
+					continue
+				}
+				var srcs []ssa.Value
+				srcs = append(srcs, call.Call.Args[1])
+				if sl, ok := call.Call.Args[1].(*ssa.Slice); ok {
+					if va, ok := sl.X.(*ssa.Alloc); ok {
+						srcs = append(srcs, storesToDeep(va)...)
+					}
+				}
+				var reads []ssa.Instruction
+				seen := map[ssa.Value]bool{}
+				var collect func(v ssa.Value, d int)
+				collect = func(v ssa.Value, d int) {
+					if v == nil || seen[v] || d > 6 {
+						return
+					}
+					seen[v] = true
+					for _, o := range origins(v, sliceOpts{throughCalls: true}) {
+						if o.Kind == "call" && strings.Contains(o.Desc, "caddyfile.Dispenser).") {
+							if ci, ok := o.V.(ssa.Instruction); ok {
+								reads = append(reads, ci)
+							}
+						}
+						// the fields and elements of a freshly built element (&T{Dial: []string{tok}})
+						if al, ok := o.V.(*ssa.Alloc); ok && al.Referrers() != nil {
+							for _, sv := range storesToDeep(al) {
+								collect(sv, d+1)
+							}
+							for _, ref := range *al.Referrers() {
+								var addr ssa.Value
+								switch x := ref.(type) {
+								case *ssa.FieldAddr:
+									addr = x
+								case *ssa.IndexAddr:
+									addr = x
+								case ssa.CallInstruction:
+									// filled by a call that is given the tokens (u.UnmarshalCaddyfile(d.NewFromNextSegment()))
+									for _, a := range x.Common().Args {
+										if a != ssa.Value(al) {
+											collect(a, d+1)
+										}
+									}
+								}
+								if addr == nil || addr.Referrers() == nil {
+									continue
+								}
+								for _, r2 := range *addr.Referrers() {
+									if st2, ok := r2.(*ssa.Store); ok && st2.Addr == addr {
+										collect(st2.Val, d+1)
+									}
+								}
+							}
+						}
+					}
+				}
+				for _, sv := range srcs {
+					collect(sv, 0)
+				}
+				if len(reads) > 0 {
+					byField[sn+"."+f] = append(byField[sn+"."+f], site{st, reads})
+				}
+			}
+		}
+		var fields []string
+		for f := range byField {
+			fields = append(fields, f)
+		}
+		sort.Strings(fields)
+		strictBefore := func(x, y ssa.Instruction) bool { return canReach(x, y) && !canReach(y, x) }
+		for _, f := range fields {
+			sites := byField[f]
+			if len(sites) < 2 {
+				continue
+			}
+			n++
+			var bad []string
+			for i, a := range sites {
+				for j, b := range sites {
+					if i == j {
+						continue
+					}
+					readFirst := false
+					for _, ra := range a.reads {
+						for _, rb := range b.reads {
+							if strictBefore(ra, rb) {
+								readFirst = true
+							}
+						}
+					}
+					if readFirst && strictBefore(b.st, a.st) {
+						bad = append(bad, fmt.Sprintf("the tokens behind the append at %s are read before those behind the append at %s, but appended after them", c.ipos(a.st), c.ipos(b.st)))
+					}
+				}
+			}
+			r.check(len(bad) == 0, rule, fname(fn), "order of "+f, c.pos(fn.Pos()), fmt.Sprintf("%d append sites in textual order", len(sites)), strings.Join(dedup(bad), "; ")+": the adapted JSON lists the entries in another order than the Caddyfile states them (for proxy upstreams the order decides which upstream `first` and `round_robin` pick)")
+		}
+	}
+	if n == 0 {
+		r.ok(rule, "unmarshallers", "lists filled from two places", "-", "no configuration list is filled from two places of one block")
 	}
 }
